@@ -28,12 +28,12 @@ type scriptDev struct {
 	tdReport     [labi.TdReportSize]byte
 	data         []byte // what the device writes into the buffer (len <= ReqBufSize)
 
-	sawReportData   [][64]byte
-	sawQuoteReport  [][]byte
-	sawInLen        []uint32
-	sawLength       []uint64
-	order           []string
-	unexpected      []string
+	sawReportData  [][64]byte
+	sawQuoteReport [][]byte
+	sawInLen       []uint32
+	sawLength      []uint64
+	order          []string
+	unexpected     []string
 }
 
 func (d *scriptDev) Open(string) error { return nil }
@@ -77,10 +77,10 @@ func (d *scriptDev) Ioctl(command uintptr, arg any) (uintptr, error) {
 }
 
 type c15Cell struct {
-	rErr, qErr   bool
-	rRes, qRes   uintptr
-	status       uint64
-	outLen       uint32
+	rErr, qErr bool
+	rRes, qRes uintptr
+	status     uint64
+	outLen     uint32
 }
 
 func (c c15Cell) String() string {
@@ -270,8 +270,8 @@ func TestC15(t *testing.T) {
 		s := gen.NewStream(rapid.Uint64().Draw(t, "content"), "c15r")
 		c := c15Cell{
 			rErr: rapid.IntRange(0, 9).Draw(t, "rErr") == 0, qErr: rapid.IntRange(0, 9).Draw(t, "qErr") == 0,
-			rRes: uintptr(rapid.SampledFrom([]uint64{0, 0, 0, 1, 9, 1 << 40}).Draw(t, "rRes")),
-			qRes: uintptr(rapid.SampledFrom([]uint64{0, 0, 0, 1, 8, 1 << 40}).Draw(t, "qRes")),
+			rRes:   uintptr(rapid.SampledFrom([]uint64{0, 0, 0, 1, 9, 1 << 40}).Draw(t, "rRes")),
+			qRes:   uintptr(rapid.SampledFrom([]uint64{0, 0, 0, 1, 8, 1 << 40}).Draw(t, "qRes")),
 			status: rapid.OneOf(rapid.Just(uint64(0)), rapid.Uint64(), rapid.SampledFrom([]uint64{labi.GetQuoteInFlight, labi.GetQuoteError, labi.GetQuoteServiceUnavailable})).Draw(t, "status"),
 			outLen: rapid.OneOf(rapid.Uint32Range(0, labi.ReqBufSize+2), rapid.Uint32()).Draw(t, "outLen"),
 		}
